@@ -20,7 +20,8 @@ func init() {
 		if err := reJSON(d["ops"], &ops); err != nil {
 			return err
 		}
-		vs := writerFault(ops, int(d["fail_at"].(float64)), d["permanent"].(bool))
+		partial, _ := d["partial"].(bool)
+		vs := writerFault(ops, int(d["fail_at"].(float64)), d["permanent"].(bool), partial)
 		for _, v := range vs {
 			fmt.Printf("  [%s] %s\n", v.Sig, v.Msg)
 		}
@@ -35,9 +36,9 @@ var errInjected = errors.New("verif: injected I/O failure")
 
 // writerFault runs a history with the writer failing at Write index failAt and checks every
 // call during which an injected error was returned.
-func writerFault(ops []MOp, failAt int, perm bool) (vs []Viol) {
+func writerFault(ops []MOp, failAt int, perm, partial bool) (vs []Viol) {
 	h := NewMuxH(40)
-	h.W.FailAt, h.W.Perm, h.W.FailErr = failAt, perm, errInjected
+	h.W.FailAt, h.W.Perm, h.W.Partial, h.W.FailErr = failAt, perm, partial, errInjected
 	for i, op := range ops {
 		f0 := h.W.FailedIn
 		c := h.Do(op, 1)
@@ -131,26 +132,29 @@ func checkC18(c *mc.Ctx) {
 	for name, ops := range scens {
 		base := RunOps(40, ops, 1)
 		W := base.W.Writes
-		n := int64(W) * 2
+		n := int64(W) * 4
 		done := mc.ParFor(n, c.OverBudget, func(i int64) {
-			at, perm := int(i/2), i%2 == 1
-			vs := writerFault(ops, at, perm)
+			at, perm, partial := int(i/4), i%2 == 1, i%4 >= 2
+			vs := writerFault(ops, at, perm, partial)
 			for _, v := range vs {
-				c.Rep.Report(v.Sig, map[string]any{"kind": "writer-fault", "scenario": name, "ops": ops, "fail_at": at, "permanent": perm, "message": v.Msg})
+				c.Rep.Report(v.Sig, map[string]any{"kind": "writer-fault", "scenario": name, "ops": ops, "fail_at": at, "permanent": perm, "partial": partial, "message": v.Msg})
 			}
-			if !perm {
+			if partial {
+				c.Ev.Class("writer-partial-write", 1)
+			}
+			if !perm && !partial {
 				c.Ev.Distinct(name + "|" + writeSite(base, &base.Calls[len(base.Calls)-1], at))
 			}
 		})
 		c.Ev.AddScenario(mc.Scenario{Name: "writer:" + name, SpaceSize: n, Executed: done, Exhaustive: done == n,
-			Bound: fmt.Sprintf("every one of the %d Write calls x {one-shot, permanent}", W)})
+			Bound: fmt.Sprintf("every one of the %d Write calls x {one-shot, permanent} x {nothing accepted, first half of the bytes accepted}", W)})
 		c.Ev.Class("writer-fault-runs", done)
 		if len(c.Ev.Samples) < 2 {
 			c.Ev.Sample(map[string]any{"scenario": name, "ops": fmt.Sprint(ops), "write_calls": W})
 		}
 	}
 	readerFaults(c)
-	c.Ev.Require("writer-fault-runs", "reader-fault-runs", "reader-fault-inside-autodetect")
+	c.Ev.Require("writer-fault-runs", "writer-partial-write", "reader-fault-runs", "reader-fault-inside-autodetect")
 }
 
 // ---------------------------------------------------------------------------------------
@@ -164,6 +168,8 @@ type faultReader struct {
 	chunk  int
 	failAt int
 	failed bool
+	// withData: the Read that reaches failAt returns its bytes and the error in the same call
+	withData bool
 }
 
 func (r *faultReader) Read(p []byte) (int, error) {
@@ -186,13 +192,27 @@ func (r *faultReader) Read(p []byte) (int, error) {
 	}
 	copy(p, r.b[r.off:r.off+n])
 	r.off += n
+	if r.withData && r.off == r.failAt {
+		// a caller whose buffer was filled exactly may return its result first (io.Reader: process the
+		// bytes before the error); the failure then surfaces on the next Read
+		if n < len(p) {
+			r.failed = true
+		}
+		return n, errInjected
+	}
 	return n, nil
 }
 
 type faultSeeker struct{ faultReader }
 
 func (r *faultSeeker) Seek(off int64, whence int) (int64, error) {
-	if whence != io.SeekStart {
+	switch whence {
+	case io.SeekStart:
+	case io.SeekCurrent:
+		off += int64(r.off)
+	case io.SeekEnd:
+		off += int64(len(r.b))
+	default:
 		return 0, errors.New("faultSeeker: unsupported whence")
 	}
 	r.off = int(off)
@@ -204,18 +224,21 @@ type readerCfg struct {
 	Auto  bool
 	API   string // packet data
 	Chunk int
+	// WithData: the Read that reaches the failure offset returns the bytes in front of it together with
+	// the error (n > 0 and err != nil in one call, as io.Reader permits)
+	WithData bool
 }
 
 func mkFaultReader(cfg readerCfg, b []byte, failAt int) (io.Reader, *faultReader) {
 	switch cfg.Kind {
 	case "seek":
-		s := &faultSeeker{faultReader{b: b, chunk: cfg.Chunk, failAt: failAt}}
+		s := &faultSeeker{faultReader{b: b, chunk: cfg.Chunk, failAt: failAt, withData: cfg.WithData}}
 		return s, &s.faultReader
 	case "bufio":
-		f := &faultReader{b: b, chunk: cfg.Chunk, failAt: failAt}
+		f := &faultReader{b: b, chunk: cfg.Chunk, failAt: failAt, withData: cfg.WithData}
 		return bufio.NewReader(f), f
 	}
-	f := &faultReader{b: b, chunk: cfg.Chunk, failAt: failAt}
+	f := &faultReader{b: b, chunk: cfg.Chunk, failAt: failAt, withData: cfg.WithData}
 	return f, f
 }
 
@@ -263,7 +286,10 @@ func readerFaults(c *mc.Ctx) {
 		for _, auto := range []bool{false, true} {
 			for _, api := range []string{"packet", "data"} {
 				for _, chunk := range []int{0, 1, 100} {
-					cfgs = append(cfgs, readerCfg{kind, auto, api, chunk})
+					cfgs = append(cfgs, readerCfg{kind, auto, api, chunk, false})
+					if chunk != 1 && kind != "bufio" { // a bufio.Reader keeps the error back until its buffer is drained: same as the plain mode for the Demuxer
+						cfgs = append(cfgs, readerCfg{kind, auto, api, chunk, true})
+					}
 				}
 			}
 		}
